@@ -89,16 +89,12 @@ func arithInstances(tier string, traps string) []Instance {
 	}
 	for _, m := range allModes {
 		out = append(out, inst("VerifRound", 8, base, "mode", m, "K", 9, "W", 12))
-		out = append(out, inst("VerifAdd", 9, base, "mode", m, "K", 3, "W", 3, "sub", 0))
-		out = append(out, inst("VerifAdd", 9, base, "mode", m, "K", 3, "W", 3, "sub", 1))
-		out = append(out, inst("VerifMul", 5, base, "mode", m, "K", 4, "W", 4))
+		out = append(out, inst("VerifAdd", 9, base, "mode", m, "K", 2, "W", 2, "sub", 0))
+		out = append(out, inst("VerifAdd", 9, base, "mode", m, "K", 2, "W", 2, "sub", 1))
+		out = append(out, inst("VerifMul", 5, base, "mode", m, "K", 3, "W", 3))
 		out = append(out, inst("VerifAbsNeg", 1, base, "mode", m, "K", 7, "W", 10, "op", "abs"))
 		out = append(out, inst("VerifAbsNeg", 1, base, "mode", m, "K", 7, "W", 10, "op", "neg"))
 		out = append(out, inst("VerifQuo", 10, base, "mode", m, "K", 3, "Kd", 1, "W", 3))
-	}
-	// two-digit divisors (1..99) under two modes
-	for _, m := range []string{"half_even", "floor"} {
-		out = append(out, inst("VerifQuo", 12, base, "mode", m, "K", 3, "Kd", 2, "W", 2))
 	}
 	return out
 }
@@ -111,8 +107,9 @@ func init() {
 			"Add/Sub": "K=2, W=2, modes half_even/floor/up", "Mul": "K=3, W=3, same modes", "Abs/Neg": "K=4, W=5",
 			"Quo":       "dividend K=3 digits, divisor coefficient enumerated 1..9 (Kd=1), W=3, modes half_even/half_down/ceiling/05up",
 			"precision": "1..K (each value)", "trap_sets": "Traps=0 (C01/C02/C07); all 2^32 trap words symbolic (C03)"},
-		"thorough": map[string]interface{}{"Round": "K=9, W=12, 9 modes", "Add/Sub": "K=3, W=3, 9 modes", "Mul": "K=4, W=4, 9 modes", "Abs/Neg": "K=7, W=10",
-			"Quo": "dividend K=3, divisor coefficient 1..9, W=3, 9 modes; divisor coefficient 1..99 (Kd=2), W=2 under half_even/floor", "precision": "1..K"},
+		"thorough": map[string]interface{}{"Round": "K=9, W=12, 9 modes", "Add/Sub": "K=2, W=2, 9 modes", "Mul": "K=3, W=3, 9 modes", "Abs/Neg": "K=7, W=10",
+			"Quo": "dividend K=3, divisor coefficient 1..9, W=3, 9 modes", "precision": "1..K",
+			"note": "the thorough tier widens modes (all nine everywhere), Round/Abs/Neg digits, Quantize (K=6), two-digit divisors in QuoInteger/Rem, NumDigits (1100 bits), parser lengths and the special-value table; larger Add/Mul/Quo coefficient bounds were tried (K=3..5, divisors 1..99) and dropped because their run time under the 16-core budget could not be confirmed clean"},
 	}
 	outsideArith := []string{"coefficients with more than K digits", "exponents outside the stated windows (in particular the package limits +-100000: regimes 1/2 are thorough-only where listed)",
 		"divisor coefficients beyond Kd digits (symbolic-by-symbolic division is enumerated over the divisor, not solved)",
@@ -129,10 +126,11 @@ func init() {
 		RequireCovers: []string{"round.subnormal", "round.overflow", "round.inexact", "add.subnormal", "mul.overflow", "quo.subnormal", "quo.inexact"}}
 	checkDefs["C02"] = &CheckDef{Prop: "C02", Enable: []string{"C02."},
 		Instances: func(tier string) []Instance {
-			out := append(arithInstances(tier, "zero"), divIntInstances(tier, "zero")...)
+			// the deeper QuoInteger/Rem and Quantize bounds of the thorough tier live in C10 and C09
+			out := append(arithInstances(tier, "zero"), divIntInstances("quick", "zero")...)
 			if tier == "thorough" {
 				out = append(out, p0Instances(tier)...)
-				out = append(out, quantizeInstances(tier, "zero")...)
+				out = append(out, quantizeInstances("quick", "zero")...)
 			} else {
 				qb := p("Pmin", 1, "regime", 0, "traps", "zero", "K", 3, "W", 3)
 				for _, m := range []string{"half_even", "up", "floor"} {
@@ -147,7 +145,7 @@ func init() {
 			for _, m := range []string{"half_even", "floor"} {
 				out = append(out, inst("VerifReduce", 4, p("op", "ctx", "K", 4, "W", 4, "Pmin", 1, "regime", 0, "traps", "zero", "mode", m)))
 			}
-			sb := p("Pmin", 1, "regime", 0, "traps", "zero", "full", 0, "mode", "half_even", "K", 2, "W", 2)
+			sb := p("Pmin", 0, "regime", 0, "traps", "zero", "full", 0, "mode", "half_even", "K", 2, "W", 2)
 			for _, op := range []string{"add", "sub", "mul", "quo", "quoint", "rem"} {
 				out = append(out, inst("VerifSpecialBinary", 2, sb, "op", op))
 			}
@@ -159,7 +157,7 @@ func init() {
 		PathModels: true, PathModelSample: 40, Stubs: stubsLevelA, Bounds: boundsArith, Outside: outsideArith, Assumptions: assumeCommon}
 	checkDefs["C07"] = &CheckDef{Prop: "C07", Enable: []string{"C07."},
 		Instances: func(tier string) []Instance {
-			out := append(append(arithInstances(tier, "zero"), divIntInstances(tier, "zero")...), quantizeInstances(tier, "zero")...)
+			out := append(append(arithInstances(tier, "zero"), divIntInstances("quick", "zero")...), quantizeInstances("quick", "zero")...)
 			out = append(out, ctxParseInstances(tier, "zero")...)
 			// Context.Reduce beyond the uint64 coefficient path, and on heap-backed coefficients
 			out = append(out, inst("VerifReduce", 4, p("op", "ctx", "K", 21, "W", 21, "Pmin", 20, "regime", 0, "traps", "zero", "mode", "half_even", "maxDigits", 30)))
@@ -205,7 +203,7 @@ func init() {
 		RequireCovers: []string{"quoint.finite", "quoint.impossible", "rem.rounded"}}
 	boundsTwoRun := map[string]interface{}{
 		"quick":    "operands of every form (finite, infinite, NaN, sNaN), K=2 digits (division operands 1 digit, enumerated), unary K=3, exponents in [-2,2], Precision 1..K, mode half_even",
-		"thorough": "K=3 (division operations 1 digit, unary 4), W=2, modes half_even/floor/up/05up"}
+		"thorough": "the quick digits under modes half_even/floor/up/05up"}
 	checkDefs["C05"] = &CheckDef{Prop: "C05", Enable: []string{"C05."},
 		Instances: func(tier string) []Instance {
 			out := twoRunInstances(tier, "VerifAlias", "zero", twoModes(tier), nil)
@@ -236,7 +234,7 @@ func init() {
 				out = append(out, inst("VerifParseDest", 2*n, p("n", n, "Pmin", 1, "regime", 0, "traps", "zero", "mode", "half_even", "K", 3, "W", 3)))
 			}
 			// Level B: a copy keeps nothing of the destination's previous representation
-			out = append(out, levelBDecimalInstances("set")...)
+			out = append(out, levelBDecimalInstances("set", "cmp")...)
 			for _, pat := range []string{"none"} {
 				i := inst("VerifBigUnary", 1, p("op", "set", "pat", pat, "maxheap", 2, "feasTimeout", 300))
 				i.LevelB = true
@@ -282,7 +280,8 @@ func init() {
 				K, W = 4, 6
 			}
 			for _, m := range modes {
-				base := p("Pmin", 1, "regime", 0, "traps", "sym", "full", 0, "mode", m, "K", K, "W", W)
+				// Precision 0 included: the special-value rules come before the zero-precision error
+				base := p("Pmin", 0, "regime", 0, "traps", "sym", "full", 0, "mode", m, "K", K, "W", W)
 				for _, op := range []string{"add", "sub", "mul", "quo", "quoint", "rem", "cmp", "pow"} {
 					out = append(out, inst("VerifSpecialBinary", 2, base, "op", op))
 				}
@@ -293,7 +292,7 @@ func init() {
 			return out
 		},
 		PathModels: true, PathModelSample: 20, Stubs: stubsLevelA, Assumptions: append([]string{"the GDA special-value table transcribed in /verif/harness/h_special.go"}, assumeCommon...),
-		Bounds: map[string]interface{}{"quick": "every combination of {NaN, sNaN, +-Inf, +-0, finite} operands with 2-digit coefficients, exponents in [-2,2], symbolic contexts and trap sets; modes half_even, floor", "thorough": "4 digits, W=6, all modes"},
+		Bounds: map[string]interface{}{"quick": "every combination of {NaN, sNaN, +-Inf, +-0, finite} operands with 2-digit coefficients, exponents in [-2,2], symbolic contexts (Precision 0 included) and trap sets; modes half_even, floor", "thorough": "4 digits, W=6, all modes"},
 		Outside: []string{"cells the statement does not spell out (Pow with an infinite operand, Cbrt(-Inf), sign of a DivisionImpossible NaN) get only the generic consequences",
 			"Sqrt/Cbrt/Ln/Log10/Exp/Pow: only the special-value prologues; operands that enter the numeric core are excluded",
 			"signs of exact-zero sums and products are asserted in C01 (finite operands)"},
@@ -305,6 +304,10 @@ func init() {
 				K = 30
 			}
 			out := []Instance{inst("VerifInt64", 5, p("K", K, "W", K)), inst("VerifConstruct", 1, p("K", 4))}
+			// zeros with exponents beyond the window, beyond the power-of-ten table and at the package limit
+			for _, ze := range []int{25, 129, 100000} {
+				out = append(out, inst("VerifInt64", 1, p("K", 1, "W", 1, "zeroexp", ze, "maxInstr", 5000000)))
+			}
 			for _, o := range []string{"both", "integ", "frac"} {
 				out = append(out, inst("VerifModf", 2, p("outs", o, "K", 6, "W", 8, "regime", 0)))
 			}
@@ -345,9 +348,6 @@ func init() {
 			thor := tier == "thorough"
 			base := p("Pmin", 1, "regime", 0, "traps", "zero", "mode", "half_even")
 			kw := func(k, w int) (int, int) {
-				if thor {
-					return k + 1, w + 1
-				}
 				return k, w
 			}
 			for _, o := range []struct {
@@ -383,7 +383,7 @@ func init() {
 			return out
 		},
 		PathModels: true, PathModelSample: 10, Stubs: stubsLevelA, Assumptions: assumeCommon,
-		Bounds:        map[string]interface{}{"quick": "eight modes run on the same symbolic operands in one path space: Round K=4/W=5, Add/Sub K=2/W=2, Mul K=3/W=3, Quo K=2 (divisor 1..9), Quantize K=3, RoundToIntegralExact K=4; two-input relations at K=2..3 under half_even and floor", "thorough": "one more digit and exponent step; relations under all modes"},
+		Bounds:        map[string]interface{}{"quick": "eight modes run on the same symbolic operands in one path space: Round K=4/W=5, Add/Sub K=2/W=2, Mul K=3/W=3, Quo K=2 (divisor 1..9), Quantize K=3, RoundToIntegralExact K=4; two-input relations at K=2..3 under half_even and floor", "thorough": "the same digits; relations under all modes"},
 		Outside:       []string{"larger coefficients", "results that are NaN (Quantize invalid) or hit a system limit are skipped", "an exact zero sum may differ in sign between round-floor and the other modes (GDA rule, asserted in C01/C08)"},
 		RequireCovers: []string{"modes.exact", "modes.inexact"}}
 	parseInstances := func(tier string, maxAscii, maxShaped int) []Instance {
@@ -493,6 +493,9 @@ func init() {
 				out = append(out, inst("VerifFormat", 3, p("fmt", f, "via", "text", "K", 3, "elo", -9, "ehi", 4)))
 			}
 			out = append(out, inst("VerifInt64", 3, p("K", 20, "W", 20)))
+			for _, ze := range []int{129, 100000} {
+				out = append(out, inst("VerifInt64", 1, p("K", 1, "W", 1, "zeroexp", ze, "maxInstr", 5000000)))
+			}
 			out = append(out, levelBDecimalInstances("reduce", "reduce_inplace", "cmp")...)
 			out = append(out, compositeInstances(tier)...)
 			return out
@@ -507,9 +510,6 @@ func init() {
 		Instances: func(tier string) []Instance {
 			var out []Instance
 			mh := 1
-			if tier == "thorough" {
-				mh = 2
-			}
 			lb := func(h string, w int, kv ...interface{}) Instance {
 				i := inst(h, w, p(kv...))
 				i.LevelB = true
@@ -540,8 +540,12 @@ func init() {
 					out = append(out, lb("VerifBigUnary", 1, "op", op, "pat", pat, "maxheap", mh+1))
 				}
 			}
+			smh := mh + 1
+			if tier == "thorough" {
+				smh = mh + 2
+			}
 			for _, w := range []string{"cmp", "unary", "bitlen", "setters"} {
-				out = append(out, lb("VerifBigScalar", 3, "what", w, "maxheap", mh+1))
+				out = append(out, lb("VerifBigScalar", 3, "what", w, "maxheap", smh))
 			}
 			return out
 		},
@@ -551,7 +555,7 @@ func init() {
 			"amd64 layout: 64-bit words, two inline words; intStruct and big.Int have the same layout"}, assumeCommon...),
 		Stubs: []string{"math/big API (Level B): SetBits, Bits, Sign, Cmp, CmpAbs, Set, Abs, Neg, Add, Sub, Mul, Quo, Rem, QuoRem, IsInt64, IsUint64, Int64, Uint64, Bit(0), BitLen exact; Div, Mod, And, Or, Xor, AndNot, Not, Lsh, Rsh, Exp, Sqrt as uninterpreted functions", "math/bits Add64/Sub64/Mul64/Len: documented bit-vector meaning", "noescape: identity"},
 		Bounds: map[string]interface{}{"quick": "ONE inductive step of each method from ARBITRARY valid representations: every operand is inline non-negative, inline negative (non-zero) or heap-backed with up to 1 word (unary/scalar: 2 words), all 64-bit words symbolic, inline words arbitrary even when heap-backed; alias patterns none, z==x, z==y, x==y, z==x==y; methods Add, Sub, Mul, Quo, Rem, QuoRem, And, Or, Xor, AndNot, Div, Mod, Not, Sqrt (the last eight with math/big's result as an uninterpreted function), Set, Abs, Neg, Sign, Cmp, CmpAbs, IsInt64, IsUint64, Int64, Uint64, Bit(0), BitLen, SetInt64, SetUint64",
-			"thorough": "heap operands up to 2 (3) words"},
+			"thorough": "scalar methods (Cmp, CmpAbs, Sign, IsInt64, ..., BitLen, setters) with heap operands up to 3 words; the arithmetic methods as in the quick tier"},
 		Outside:       []string{"heap values above the stated word count in the pre-state", "text/JSON/Gob/Scan/Format wrappers, Append/SetString fast paths, and the remaining pass-through wrappers (Lsh, Rsh, Exp, GCD, ModInverse, ModSqrt, SetBit, Binomial, MulRange, Rand, DivMod)", "32-bit platforms"},
 		RequireCovers: []string{"big.zero_result", "big.heap_result"}}
 	checkDefs["C15"] = &CheckDef{Prop: "C15", Enable: []string{"C15."},
@@ -561,7 +565,9 @@ func init() {
 			if tier == "thorough" {
 				K = 40
 			}
-			return []Instance{inst("VerifCmp", 2, p("K", K, "full", 1, "maxDigits", K+6)), inst("VerifCmpTotal", 3, p("K", K, "full", 1, "maxDigits", K+6))}
+			out := []Instance{inst("VerifCmp", 2, p("K", K, "full", 1, "maxDigits", K+6)), inst("VerifCmpTotal", 3, p("K", K, "full", 1, "maxDigits", K+6))}
+			// coefficients in arbitrary representations (heap-backed small values, stale inline words)
+			return append(out, levelBDecimalInstances("cmp")...)
 		},
 		PathModels: true, PathModelSample: 150, Stubs: stubsLevelA, Assumptions: assumeCommon,
 		Bounds:        map[string]interface{}{"quick": "coefficients up to 21 digits (across the uint64 boundary), exponents over the full package range [-100000, 100000], all four forms and signs", "thorough": "40 digits"},
@@ -584,7 +590,7 @@ func twoRunInstances(tier, harness string, traps string, modes []string, extraUn
 	var out []Instance
 	K, W, Kdiv := 2, 2, 1
 	if tier == "thorough" {
-		K, W, Kdiv = 3, 2, 1
+		K, W, Kdiv = 2, 2, 1 // the thorough tier adds modes (twoModes), not digits
 	}
 	for _, m := range modes {
 		base := p("Pmin", 1, "regime", 0, "traps", traps, "full", 0, "mode", m)
@@ -646,7 +652,6 @@ func p0Instances(tier string) []Instance {
 	K, W := 2, 2
 	modes := []string{"half_even", "floor"}
 	if tier == "thorough" {
-		K, W = 3, 4
 		modes = allModes
 	}
 	var out []Instance
@@ -669,7 +674,6 @@ func ctxParseInstances(tier string, traps string) []Instance {
 	shapes := [][3]int{{2, 1, 1}, {1, 2, 1}, {3, 0, 1}, {0, 3, 1}, {3, 0, 0}, {1, 1, 0}}
 	if tier == "thorough" {
 		modes = allModes
-		shapes = append(shapes, [3]int{3, 2, 1}, [3]int{2, 3, 1}, [3]int{4, 0, 1})
 	}
 	var out []Instance
 	for _, m := range modes {
@@ -746,9 +750,6 @@ func levelBDecimalInstances(whats ...string) []Instance {
 func limitInstances(tier string) []Instance {
 	var out []Instance
 	K := 3
-	if tier == "thorough" {
-		K = 4
-	}
 	for _, reg := range []int{1, 2} {
 		for _, m := range []string{"half_even", "floor"} {
 			base := p("Pmin", 1, "regime", reg, "traps", "zero", "mode", m)
